@@ -370,6 +370,22 @@ def run_property(prop, units, tier, seed, meta):
             path = os.path.join(replay_dir, re.sub(r"[^\w.-]", "_", o.id) + ".json")
             json.dump(info, open(path, "w"), indent=1, default=str)
             violations.append((o, path, info))
+        # thorough tier: seeded native differential run of the real code against the executable postconditions
+        # (a cross-check of the spec functions and of the trusted outlines, not a substitute for the proofs)
+        if ctx.tier == "thorough" and res.mod is not None and hasattr(res.mod, "replay") and not res.failures and not res.undecided:
+            try:
+                d = res.mod.replay(ctx, res, {"obl": None}) or {}
+                res.notes.append("thorough: seeded native differential run (VERIF_SEED=%d): %s" % (ctx.seed, "FAILING INPUT " + json.dumps(d.get("input"), default=str)[:400] if d.get("found_input") else (d.get("native_search") or "")[:160].replace("\n", " ")))
+                if d.get("found_input"):
+                    o = Obl("native:%s:differential" % res.unit, "native", "failed", kind="proved", detail="seeded native run of the real code disagrees with the executable postcondition")
+                    info = {"property": ctx.prop, "unit": res.unit, "obligation": o.id, "backend": "native", "verifier_output": o.detail}
+                    info.update(d)
+                    path = os.path.join(replay_dir, re.sub(r"[^\w.-]", "_", o.id) + ".json")
+                    json.dump(info, open(path, "w"), indent=1, default=str)
+                    res.obls.append(o)
+                    violations.append((o, path, info))
+            except Exception as e:
+                res.notes.append("thorough: native differential run crashed (ignored): %s" % e)
         # known findings: the unit replays its witnesses
         if res.mod is not None and hasattr(res.mod, "known_findings"):
             try:
